@@ -17,7 +17,7 @@ class Crash(BaseException):
     """not an Exception: nothing in amisc or in a user model should swallow it"""
 
 
-KINDS = ('call_model', 'grid_refine', 'grid_set', 'grid_impute', 'interp_refine')
+KINDS = ('call_model', 'grid_refine', 'collocation', 'grid_set', 'grid_impute', 'interp_refine')
 
 
 class injector:
@@ -72,6 +72,17 @@ class injector:
         SparseGrid.set = set_counting
         SparseGrid.impute_missing_data = wrap('grid_impute', SparseGrid.impute_missing_data)
         Lagrange.refine = wrap('interp_refine', Lagrange.refine)
+        # inside SparseGrid.refine: before each 1-d collocation-point computation (the grids of some inputs may be extended already)
+        self.saved.append((SparseGrid, 'collocation_1d', SparseGrid.__dict__['collocation_1d']))
+        orig_col = SparseGrid.collocation_1d
+
+        def col(*a, **k):
+            inj.count['collocation'] += 1
+            if inj.target == ('collocation', inj.count['collocation']) and not inj.fired:
+                inj.fired = True
+                raise Crash(f'collocation #{inj.count["collocation"]}')
+            return orig_col(*a, **k)
+        SparseGrid.collocation_1d = staticmethod(col)
         return self
 
     def __exit__(self, *exc):
@@ -100,6 +111,100 @@ def data_truthful(system, spec):
                     if not abs(float(yi[o]) - want) <= 1e-9 * (1 + abs(want)):
                         bad.append((comp.name, tuple(alpha), coord, o, float(yi[o]), want))
     return bad
+
+
+def run_double(ctx: Ctx):
+    """the same training run interrupted TWICE (inside model evaluations), saved both times into the same root directory: the second saved
+    state must be the state at the second interruption (files of the first save may not survive in it), and resuming from it reaches the
+    uninterrupted result"""
+    from amisc import System
+    rng = ctx.rng
+    tmp = WORK / f'c13_tmp2_{os.getpid()}'
+    shutil.rmtree(tmp, ignore_errors=True); tmp.mkdir(parents=True, exist_ok=True)
+    cwd0 = os.getcwd()
+    try:
+        for n in range(ctx.pick(2, 8)):
+            sys_seed = ctx.seed * 977 + n; np_seed = rng.randint(0, 10 ** 6); K = 5
+
+            def fresh(root):
+                r = random.Random(sys_seed)
+                return systems.persist_chain_system(r, ncomp=2, name='cr', root_dir=root, with_alpha=True, costs=False, grid_opts=True)
+            ref_sys, spec = fresh(None)
+            with injector(None) as inj0, c12.reseeding(np_seed):
+                ref_sys.fit(max_iter=K, num_refine=10, max_tol=-1.0)
+            ref = c12.full_state(ref_sys)
+            total = inj0.count['call_model']
+            if total < 3:
+                continue
+            p1 = rng.randint(1, total - 1)
+            root = tmp / f'd{n}'; root.mkdir()
+            system, _ = fresh(root)
+            case = {'double_interruption': n, 'system_seed': sys_seed, 'numpy_seed': np_seed, 'iterations': K, 'first_interruption_at_model_call': p1}
+            ctx.case(case, nontrivial=True, kind='double')
+            try:
+                with injector(('call_model', p1)), c12.reseeding(np_seed):
+                    try:
+                        system.fit(max_iter=K, num_refine=10, max_tol=-1.0)
+                        continue           # not reached
+                    except Crash:
+                        pass
+                err_file = system.root_dir / 'surrogates' / 'cr_error.yml'
+                os.chdir(tmp)
+                try:
+                    l1 = System.load_from_file(err_file)
+                finally:
+                    os.chdir(cwd0)
+                l1.root_dir = system.root_dir          # keep saving into the same directory
+                # second interruption: at a later model call of the resumed run
+                with injector(None) as injc, c12.reseeding(np_seed):
+                    pass
+                second = None
+                for p2 in (2, 1):
+                    l1c = System.load_from_file(err_file) if second is None else None
+                    if l1c is None:
+                        break
+                    l1c.root_dir = system.root_dir
+                    try:
+                        with injector(('call_model', p2)), c12.reseeding(np_seed):
+                            try:
+                                l1c.fit(max_iter=K - l1c.refine_level, num_refine=10, max_tol=-1.0)
+                            except Crash:
+                                second = (p2, l1c)
+                    except Exception as e:
+                        ctx.violate('C13:resume-raises', f'resuming after the first interruption raised {type(e).__name__}: {e}', case); break
+                if second is None:
+                    ctx.count('second_interruption_not_reached'); continue
+                p2, l1c = second
+                case['second_interruption_at_model_call_of_resumed_run'] = p2
+                level2 = l1c.refine_level
+                os.chdir(tmp)
+                try:
+                    l2 = System.load_from_file(l1c.root_dir / 'surrogates' / 'cr_error.yml')
+                except Exception as e:
+                    ctx.violate('C13:saved-state-does-not-load', f'second interruption: loading raised {type(e).__name__}: {e}', case); continue
+                finally:
+                    os.chdir(cwd0)
+                if len(l2.train_history) != level2:
+                    ctx.violate('C13:history-length', f'second interruption: saved history has {len(l2.train_history)} entries, {level2} steps had completed', case)
+                bad = data_truthful(l2, spec)
+                if bad:
+                    ctx.violate('C13:saved-value-not-a-model-output', f'second interruption: stored {bad[0]}', case)
+                l2.root_dir = None
+                try:
+                    with c12.reseeding(np_seed):
+                        l2.fit(max_iter=K - l2.refine_level, num_refine=10, max_tol=-1.0)
+                except Exception as e:
+                    ctx.violate('C13:resume-raises', f'resuming after the second interruption raised {type(e).__name__}: {e}', case); continue
+                st = c12.full_state(l2)
+                diffs = [d for d in c12.diff_states(ref, st) if d != 'history' or not c12.history_equiv(ref['history'], st['history'])]
+                if diffs:
+                    ctx.violate('C13:resumed-run-differs', f'after two interruptions saved into one directory, {diffs} differ from the uninterrupted run', case)
+            finally:
+                os.chdir(cwd0)
+                shutil.rmtree(root, ignore_errors=True)
+    finally:
+        os.chdir(cwd0)
+        shutil.rmtree(tmp, ignore_errors=True)
 
 
 def run(ctx: Ctx):
@@ -192,7 +297,7 @@ def run(ctx: Ctx):
                                                               [list(a_) + list(b_) for a_, b_ in inj.batch_order]]))
                             fmeta.append(({**case, 'component': cname, 'interrupted_request': [list(ca), list(cb)], 'stores_completed': int(inj.sets_done),
                                            'completed_requests': reqs_c, 'observed_batch_order': [list(a_) + list(b_) for a_, b_ in inj.batch_order],
-                                           'batch_complete': inj.target[0] != 'grid_refine'}, real_keys, sorted((tuple(a_), tuple(b_)) for a_, b_ in lc.active_set),
+                                           'batch_complete': inj.target[0] not in ('grid_refine', 'collocation')}, real_keys, sorted((tuple(a_), tuple(b_)) for a_, b_ in lc.active_set),
                                           sorted((tuple(a_), tuple(b_)) for a_, b_ in lc.candidate_set), na_c))
                     bad = data_truthful(loaded, spec)
                     if bad:
@@ -244,6 +349,7 @@ def run(ctx: Ctx):
     finally:
         os.chdir(cwd0)
         shutil.rmtree(tmp, ignore_errors=True)
+    run_double(ctx)
     from common import run_model, ModelError
     for (case, real_keys, real_act, real_cand, na_c), mo in zip(fmeta, run_model(flines, shards=8) if flines else []):
         ctx.count('saved_states_compared')
